@@ -81,11 +81,58 @@ class Lang:
         return memo(self.key(outdir, None, "selftest"), lambda: self._selftest(outdir, scratch))
 
 
+def py_undefined_names(path, extra_defined):
+    """Names a Python file loads but never binds anywhere (any scope counts as binding: over-approximation,
+    so no false alarm) and that neither the builtins nor the star-imported modules provide."""
+    import ast
+    import builtins
+    tree = ast.parse(open(path, encoding="utf-8", errors="replace").read(), path)
+    defined = set(dir(builtins)) | set(extra_defined)
+    for node in ast.walk(tree):
+        if isinstance(node, (ast.FunctionDef, ast.AsyncFunctionDef, ast.ClassDef)):
+            defined.add(node.name)
+        elif isinstance(node, (ast.Import, ast.ImportFrom)):
+            for a in node.names:
+                if a.name != "*":
+                    defined.add((a.asname or a.name).split(".")[0])
+        elif isinstance(node, ast.Name) and isinstance(node.ctx, (ast.Store, ast.Del)):
+            defined.add(node.id)
+        elif isinstance(node, ast.arg):
+            defined.add(node.arg)
+        elif isinstance(node, ast.ExceptHandler) and node.name:
+            defined.add(node.name)
+    used = {n.id for n in ast.walk(tree) if isinstance(n, ast.Name) and isinstance(n.ctx, ast.Load)}
+    return sorted(used - defined)
+
+
+def py_runtime_names():
+    import ast
+    names = set()
+    d = os.path.join(RUNTIMES, "py")
+    for f in os.listdir(d):
+        if f.endswith(".py") and f != "driver.py":
+            names.add(f[:-3])
+            tree = ast.parse(open(os.path.join(d, f)).read())
+            for node in tree.body:
+                if isinstance(node, (ast.FunctionDef, ast.ClassDef)):
+                    names.add(node.name)
+                elif isinstance(node, ast.Assign):
+                    for t in node.targets:
+                        if isinstance(t, ast.Name):
+                            names.add(t.id)
+                elif isinstance(node, (ast.Import, ast.ImportFrom)):
+                    for a in node.names:
+                        if a.name != "*":
+                            names.add((a.asname or a.name).split(".")[0])
+    return names
+
+
 class Py(Lang):
     name = "py"
 
     def toolchain(self):
-        return sys.version
+        # the build check lives in this file, so it is part of the memo key
+        return sys.version + sha(read(os.path.abspath(__file__)))
 
     def _env(self):
         env = dict(os.environ)
@@ -102,6 +149,15 @@ class Py(Lang):
             if r.returncode != 0:
                 ok = False
                 log += "%s: %s\n" % (f, r.stderr.strip().splitlines()[-1] if r.stderr.strip() else "syntax error")
+            elif not f.endswith("_test.py"):
+                # names that nothing defines (e.g. a Go-style `true`): the file is not a valid program against the runtime API
+                try:
+                    und = py_undefined_names(os.path.join(outdir, f), py_runtime_names())
+                except SyntaxError:
+                    und = []
+                if und:
+                    ok = False
+                    log += "%s: undefined name(s) %s\n" % (f, ", ".join(und[:6]))
         cp = os.path.join(scratch, "case_py.json")
         write(cp, json.dumps(case))
         r = run([sys.executable, os.path.join(RUNTIMES, "py", "driver.py"), outdir, cp], env=self._env(), timeout=300)
